@@ -48,15 +48,23 @@ Definition qkinds_covered : bool :=
 (** the streamer used by the handler correspondence: an in-process searcher over one tiny shard;
     every query it is given succeeds *)
 Definition ok_streamer (q opts : val) : outcome val := Ok VNil.
+Definition ok_stream (q opts : val) : outcome val := Ok (VL []).
+Definition ok_lister (q opts : val) : outcome val :=
+  match lookup "zoekt.RepoList" pf_tables with Some t => Ok (zero_rec (t_from t)) | None => Ok VNil end.
 
 Definition c24_case_ok (c : wcase) : bool :=
   match c with
   | WConv cv inp obs retab => out_eqb (apply (gen_env (re_norm_of retab)) cv inp) obs
   | WDom ct cf v retab => dom_b (gen_env (re_norm_of retab)) ct cf v
+  | WHandlerA h req q opts retab =>
+      out_eqb (handle_args (gen_env (re_norm_of retab)) handler_defaults_nil_opts h req) (Ok (VL [q; opts]))
   | WNilFrom n obs retab => out_eqb (nil_from (gen_env (re_norm_of retab)) n) obs
   | WHandler h req cls retab =>
-      (out_class (handle (gen_env (re_norm_of retab)) ok_streamer ok_streamer
+      (out_class (handle (gen_env (re_norm_of retab)) ok_streamer ok_stream ok_lister
                          handler_defaults_nil_opts h req) =? cls)%N
+  | WHandlerR h req sres resp retab =>
+      out_eqb (handle (gen_env (re_norm_of retab)) (fun _ _ => Ok sres) (fun _ _ => Ok sres) (fun _ _ => Ok sres)
+                      handler_defaults_nil_opts h req) (Ok resp)
   end.
 
 Definition c24_mismatches (l : list wcase) : list N := bad_indexes c24_case_ok l.
